@@ -65,6 +65,11 @@ CLAIMED["C05"] = ("predicated path enumeration (E4) incl. goroutine-body analysi
          "go/ssa model; grpc stream and context behaviour assumed; loops unrolled to 2 iterations",
          "DESIGN.md §3 C05")
 
+CLAIMED["C14"] = ("predicated path enumeration (E4) with loop unrolling, type-level field audit, store-root audit (E5c), 32-row decision table of isTargetDelete",
+         "Static, all-paths: Reset = clear timestamp/metadata, regenerate metadata, then unconditionally delete and announce every non-metadata root (announcing exactly the deleted root); Remove = forget then announce under the write lock; per-target isolation by types (no field reaches another target), fresh per-target objects, receiver-only stores, one keyed lookup per cache entry point; a delivered whole-target delete ends a single-target stream cleanly and isTargetDelete is exact on its four atoms; metadata.Clear/ResetEntry cover all kinds. Necessary conditions of 'exactly this target and everything of it'; that Delete removes every leaf below a root is ctree semantics (not decided here).",
+         "go/ssa model; package-level metadata registries are shared by design (assumption); loops unrolled",
+         "DESIGN.md §3 C14")
+
 NA_REASON = {}
 DEFAULT_NA = "check not built yet in this round (static rules designed in DESIGN.md section 3); not claimed until the rule runs"
 
